@@ -56,6 +56,8 @@ type FDCase struct {
 	QSeed  uint64                `json:"qseed"`
 	// Via: which entry point opens the font
 	Via string `json:"via"` // parsettc | addfont
+	// SysTotal: size of the complete systematic list (set in run 0 only, for the evidence)
+	SysTotal int `json:"sys_total,omitempty"`
 }
 
 func applyByteFaults(img []byte, fs []ByteFault) []byte {
@@ -117,7 +119,8 @@ var (
 )
 
 // systematicCases enumerates, for one pristine image, truncation at every table
-// boundary +-{0,1,2,4} and inside every table header (every 4 bytes of the first 32).
+// boundary +-{0,1,2,4} and inside every table header (every 4 bytes of the first 32), then
+// every directory / header field overwritten with boundary values.
 func systematicCases(img []byte) []ByteFault {
 	_, tables := faultdisk.ParseDirectory(img)
 	seen := map[int]bool{}
@@ -141,6 +144,31 @@ func systematicCases(img []byte) []ByteFault {
 			add(t.Offset+h, t.Tag+":header")
 		}
 		add(t.DirEntry+8, t.Tag+":direntry")
+	}
+	// every 32-bit field of every directory record and every 16/32-bit field of every table
+	// header (first 32 bytes) set to 0, 1, max and near-size values
+	field := func(kind string, off int, val uint32, aim string) {
+		if off < 0 || off+2 > len(img) {
+			return
+		}
+		out = append(out, ByteFault{Kind: kind, Off: off, Val: val, Aim: aim})
+	}
+	for _, t := range tables {
+		for _, d := range []int{8, 12} { // offset, length (sfnt) / offset, compLength (WOFF: 4, 8 handled by the header sweep of the directory)
+			for _, v := range []uint32{0, 1, 0xFFFFFFFF, 0x7FFFFFFF, uint32(len(img)), uint32(len(img) - 1), uint32(len(img) + 1), uint32(t.Length + 1)} {
+				field("set32", t.DirEntry+d, v, t.Tag+":direntry")
+			}
+		}
+		for h := 0; h < 32 && h+2 <= t.Length; h += 2 {
+			for _, v := range []uint32{0, 1, 0xFFFF, 0x7FFF} {
+				field("set16", t.Offset+h, v, t.Tag+":header")
+			}
+		}
+		for h := 0; h < 32 && h+4 <= t.Length; h += 4 {
+			for _, v := range []uint32{0, 0xFFFFFFFF, uint32(t.Length), uint32(t.Length + 1)} {
+				field("set32", t.Offset+h, v, t.Tag+":header")
+			}
+		}
 	}
 	return out
 }
@@ -191,12 +219,15 @@ func (e *fdEngine) Generate(seed uint64, tier string, run int) (json.RawMessage,
 	rf := kernel.NewRand(seed, "fault")
 	buildSystematic()
 	c := FDCase{QSeed: seed, Via: "parsettc"}
+	if run == 0 {
+		c.SysTotal = sysTotal
+	}
 	if rk.Chance(0.08) {
 		c.Via = "addfont"
 	}
 	nSys := sysTotal
 	if tier == "quick" {
-		nSys = 2500 // a window of the systematic list whose start is derived from VERIF_SEED
+		nSys = 30000 // a window of the systematic list whose start is derived from VERIF_SEED
 	}
 	files := corpus.Files()
 	switch {
@@ -397,6 +428,12 @@ func (e *fdEngine) Execute(raw json.RawMessage) (*kernel.Outcome, error) {
 	img := applyByteFaults(pristine, c.Bytes)
 	w := &fdWorld{out: out, img: img}
 	out.Count("family."+c.Family, 1)
+	if c.SysTotal > 0 {
+		out.Count("systematic_list_size", int64(c.SysTotal)) // reported by run 0 only
+	}
+	if c.Family == "systematic" {
+		out.Count("exhaustive_cases", 1)
+	}
 	for _, b := range c.Bytes {
 		out.Count("fault.byte_"+b.Kind, 1)
 	}
